@@ -19,10 +19,13 @@ PLACEHOLDER = re.compile(r'##[A-Z_]+##')
 
 def vocab_isa(v):
     ms = v['M']
-    cfg = {'description': 'generated vocabulary',
+    # how the definition spells a mnemonic or macro name carries no meaning (they are case-insensitive), and its description is free text
+    odd = len(json.dumps(v['M']) + json.dumps(v['Q']) + json.dumps(v['R'])) % 2 == 1
+    up = (lambda w: w.upper() if len(w) % 2 else w.capitalize()) if odd else (lambda w: w)
+    cfg = {'description': 'Load & Store <8-bit> "generated" vocabulary' if odd else 'generated vocabulary',
            'general': {'address_size': 16, 'registers': list(v['R']), 'identifier': {'name': 'genisa', 'version': '1.0.0', 'extension': 'gen'}},
            'operand_sets': {'imm': {'operand_values': {'i': {'type': 'numeric', 'argument': {'size': 8, 'byte_align': True}}}}},
-           'instructions': {m: {'bytecode': {'value': i + 1, 'size': 8}} for i, m in enumerate(ms)}}
+           'instructions': {(up(m) if i else m): {'bytecode': {'value': i + 1, 'size': 8}} for i, m in enumerate(ms)}}
     # operand sets of the usual kinds (the vocabulary of the generated packages must not depend on them)
     if v['R']:
         cfg['operand_sets']['regs'] = {'operand_values': {f'r_{r}': {'type': 'register', 'register': r, 'bytecode': {'value': i, 'size': 4}}
@@ -38,7 +41,7 @@ def vocab_isa(v):
                          {'bytecode': {'value': 201, 'size': 8}, 'operands': {'count': 1, 'operand_sets': {'list': ['ports']}}},
                          {'bytecode': {'value': 202, 'size': 8}}]
     if v['Q']:
-        cfg['macros'] = {q: [{'instructions': [ms[0]]}] for q in v['Q']}
+        cfg['macros'] = {up(q): [{'instructions': [ms[0]]}] for q in v['Q']}
     if v['P']:
         cfg['predefined'] = {'constants': [{'name': p, 'value': i} for i, p in enumerate(v['P'])]}
     return isagen.dump(cfg)
@@ -330,8 +333,12 @@ def eval_corpus(path):
             from bespokeasm.configgen.vscode import VSCodeConfigGenerator
             from bespokeasm.configgen.sublime import SublimeConfigGenerator
             g = VSCodeConfigGenerator(path, 0, os.path.join(d, 'vs'), 'genisa', None, None)
-            holder['M'] = sorted(g.model.instruction_mnemonics)
-            holder['Q'] = sorted(g.model.macro_mnemonics)
+            # the vocabulary is read from the definition file itself, as it is spelled there
+            import yaml
+            with open(path) as fh:
+                raw = json.load(fh) if path.endswith('.json') else yaml.safe_load(fh)
+            holder['M'] = sorted(str(k) for k in (raw.get('instructions') or {}))
+            holder['Q'] = sorted(str(k) for k in (raw.get('macros') or {}))
             holder['R'] = sorted(g.model.registers)
             g.generate()
             os.makedirs(os.path.join(d, 'sub'))
